@@ -68,6 +68,8 @@ class ForwardAnalysis(Generic[T], Analysis[T], ABC):
             if not self.eq(val_after, vals_after[bb]):
                 vals_after[bb] = val_after
                 queue.update(bb.successors)
+                if self.include_unreachable():
+                    queue.update(bb.dummy_successors)
         return vals_before
 
 
@@ -97,6 +99,8 @@ class BackwardAnalysis(Generic[T], Analysis[T], ABC):
             if not self.eq(vals_before[bb], val_before):
                 vals_before[bb] = val_before
                 queue.update(bb.predecessors)
+                if self.include_unreachable():
+                    queue.update(bb.dummy_predecessors)
         return vals_before
 
 
